@@ -11,5 +11,5 @@ Definition run (fn : string) (args : list string) : string :=
   if String.eqb fn "unpack" then show_unpack (unpack_name (unhex (arg args 0)) (undec (arg args 1)))
   else if String.eqb fn "pack" then show_pack (pack_name_plain (unhex (arg args 0)) (undec (arg args 1)))
   else if String.eqb fn "idn" then show_idn (is_domain_name (unhex (arg args 0)))
-  else if String.eqb fn "fqdn" then showb (is_fqdn_b (unhex (arg args 0)))
+  else if String.eqb fn "fqdn" then showb (is_fqdn (unhex (arg args 0)))
   else "unknown-fn"%string.
